@@ -86,6 +86,23 @@ def observe(doc, group, exc):
   }
 
 
+def graph_sig(doc):
+  """
+  Canonical form of the engine's dependency graph (the hidden state that decides what the NEXT
+  bundle recalculates).  Not an oracle by itself: a differing graph makes the explorer chain
+  follow-up bundles behind the deviating schedule.
+  """
+  out = []
+  for e in doc.eng.dep_graph._all_edges:
+    r = str(e.relation)
+    if ' at 0x' in r:
+      r = type(e.relation).__name__
+    out.append("%s.%s<-%s.%s@%s" % (e.out_node.table_id, e.out_node.col_id,
+                                    e.in_node.table_id, e.in_node.col_id, r))
+  out.sort()
+  return hashlib.sha256('\n'.join(out).encode()).hexdigest()[:16]
+
+
 def run_scheduled(doc, bundle, schedule=None):
   s = Scheduler(doc, schedule)
   try:
